@@ -982,7 +982,8 @@ impl TextPane for Buffer {
         }
 
         if let Some(transparent_char) = transparent_char {
-            return transparent_char;
+            // nothing solid beneath: fill from a blank cell, as an opaque bottom layer does (a flattened copy has to look the same)
+            return self.make_solid_color(transparent_char, AttributedChar::default());
         }
 
         if self.is_terminal_buffer || ch_opt.is_some() || attr_opt.is_some() {
